@@ -198,7 +198,7 @@ func New(fs absfs.SymlinkFileSystem, options ExportOptions) (*AbsfsNFS, error) {
 
 	// Initialize rate limiter if enabled
 	if options.EnableRateLimiting {
-		server.rateLimiter = NewRateLimiter(*options.RateLimitConfig)
+		server.rateLimiter.Store(NewRateLimiter(*options.RateLimitConfig))
 		server.logger.Printf("Rate limiting enabled (per-IP: %d req/s, global: %d req/s)",
 			options.RateLimitConfig.PerIPRequestsPerSecond,
 			options.RateLimitConfig.GlobalRequestsPerSecond)
